@@ -40,6 +40,13 @@ TEMPLATES = [
     ('if_error-1st', 'nontail', 'fn f(n: int, acc: int ?= 0)->int{ if(n == 0, acc, if_error(f(n - 1, acc + 1), 0)) }', lambda n: n),
     ('optional-or-1st', 'nontail', 'fn f(n: int)->Optional<int>{ if(n == 0, some(7), f(n - 1) || some(0)) }', lambda n: Opt(7, True)),
     ('map-callback', 'nontail', 'fn f(n: int, acc: int ?= 0)->int{ if(n == 0, acc, [0].map((z: int)->{ f(n - 1, acc + 1) })[0]) }', lambda n: n),
+    # the self-call is the operand of a member / variant access: not a tail position
+    ('variant-bang', 'nontail', 'union Nat(zero: int, succ: Nat) fn f(n: int)->Nat{ if(n == 0, Nat::zero(7), Nat::succ(f(n - 1))!:succ) }', None),
+    ('variant-bang-direct', 'nontail', 'union Nat(zero: int, succ: Nat) fn wrap(d: int)->Nat{ if(d == 0, Nat::zero(7), Nat::succ(wrap(d - 1))) } '
+     'fn f(n: int, w: Optional<Nat> ?= none())->Nat{ if(n == 0, w || wrap(3), f(n - 1, some(Nat::succ(w || wrap(3))))!:succ) }', None),
+    ('variant-opt', 'nontail', 'union Nat(zero: int, succ: Nat) fn f(n: int)->Optional<int>{ if(n == 0, some(7), Nat::zero(f(n - 1).value())?:zero) }', lambda n: Opt(7, True)),
+    ('struct-member', 'nontail', 'struct Bx(a: int, b: int) fn bx(a: int)->Bx{ Bx(a, 0) } fn f(n: int, acc: int ?= 0)->int{ if(n == 0, acc, bx(f(n - 1, acc + 1))::a) }', lambda n: n),
+    ('index-of-call', 'nontail', 'fn f(n: int, acc: int ?= 0)->Sequence<int>{ if(n == 0, [acc], [f(n - 1, acc + 1)[0]]) }', None),
     # calls in tail position that are NOT self-calls (another closure of the same literal, another function of the same shape,
     # another overload of the same name): plain calls, whatever their position
     ('sibling-closure', 'either', 'fn mk(k: int, next: (int)->(int))->(int)->(int){ (n: int)->{ if(n > 100, n, next(n + k)) } } '
